@@ -227,7 +227,7 @@ func (w *fsWallet) notifyNewFiles(ctx context.Context, files ...fs.FileInfo) {
 	log.L(ctx).Debugf("Processed %d files. Found %d new addresses", len(files), len(newAddresses))
 	// Avoid holding the lock while calling the listeners, by using a go-routine
 	go func() {
-		for _, l := range w.listeners {
+		for _, l := range listeners {
 			for _, addr := range newAddresses {
 				l <- *addr
 			}
@@ -353,12 +353,14 @@ func (w *fsWallet) loadWalletFile(ctx context.Context, addr ethtypes.Address0xHe
 }
 
 func (w *fsWallet) getKeyAndPasswordFiles(ctx context.Context, addr ethtypes.Address0xHex, primaryFilename string, primaryFile []byte) (kf string, pf string, err error) {
-	if strings.ToLower(w.conf.Metadata.Format) == "auto" {
-		w.conf.Metadata.Format = strings.TrimPrefix(w.conf.Filenames.PrimaryExt, ".")
+	// Resolved per call into a local: this runs concurrently for different addresses, outside of the mutex
+	format := w.conf.Metadata.Format
+	if strings.ToLower(format) == "auto" {
+		format = strings.TrimPrefix(w.conf.Filenames.PrimaryExt, ".")
 	}
 
 	var metadata map[string]interface{}
-	switch w.conf.Metadata.Format {
+	switch format {
 	case "toml", "tml":
 		err = toml.Unmarshal(primaryFile, &metadata)
 	case "json":
@@ -379,7 +381,7 @@ func (w *fsWallet) getKeyAndPasswordFiles(ctx context.Context, addr ethtypes.Add
 		return primaryFilename, path.Join(passwordPath, passwordFilename), nil
 	}
 	if err != nil {
-		log.L(ctx).Errorf("Failed to parse '%s' as %s: %s", primaryFilename, w.conf.Metadata.Format, err)
+		log.L(ctx).Errorf("Failed to parse '%s' as %s: %s", primaryFilename, format, err)
 		return "", "", i18n.NewError(ctx, signermsgs.MsgWalletFailed, addr)
 	}
 
